@@ -10,6 +10,8 @@ C15-d  placeholders are filled: a Placeholder obtained from the context is consu
 """
 import re
 
+import guards
+
 import layout
 import narrowing
 import reach
@@ -373,6 +375,66 @@ def ok_blocks(b):
     return out
 
 
+def in_cycle(b, bb):
+    seen, todo = set(), list(b.succs(bb))
+    while todo:
+        x = todo.pop()
+        if x == bb:
+            return True
+        if x in seen:
+            continue
+        seen.add(x)
+        todo.extend(b.succs(x))
+    return False
+
+
+def c15_g(run, fx):
+    rule = "C15-g"
+    run.rule(rule, "composite glyph instructions: the reader (CompositeGlyphs::read) and the writer (CompositeGlyph::write) agree on where "
+                   "WE_HAVE_INSTRUCTIONS is looked for - both accumulate the flag over all components (a bool that starts false and is set "
+                   "inside the component loop from we_have_instructions()), so a glyph the reader accepts with the flag on any component is "
+                   "written back with its instructions")
+    fns = (("<tables::glyf::CompositeGlyphs<'b> as binary::read::ReadBinary>::read", "reader"),
+           ("<tables::glyf::CompositeGlyph<'a> as binary::write::WriteBinary>::write", "writer"))
+    for path, role in fns:
+        b = fx.body(path)
+        if b is None:
+            cands = [x for x in fx.bodies if x.kind != "Closure" and x.path.startswith(path.split("<'")[0]) and x.path.endswith(path.split("::")[-1])
+                     and ("CompositeGlyphs" in x.path) == ("CompositeGlyphs" in path)]
+            b = cands[0] if cands else None
+        if b is None:
+            run.anchor_missing(rule, path)
+            continue
+        prov = sym.Prov(b)
+        ok = False
+        for l, ds in b.defs().items():
+            if b.local_ty(l) != "bool" or len(ds) < 2:
+                continue
+            init_false = any(d[2] == "assign" and d[3]["rv"]["k"] == "use" and d[3]["rv"]["op"]["k"] == "const" and d[3]["rv"]["op"].get("val") in (0, False) for d in ds)
+            in_loop = False
+            for d in ds:
+                if d[2] != "assign" or not in_cycle(b, d[0]):
+                    continue
+                rv = d[3]["rv"]
+                if rv["k"] == "use" and rv["op"]["k"] == "const" and rv["op"].get("val") in (1, True):
+                    # set to true: under a branch on we_have_instructions()
+                    for tb, fb_, call, sw in guards.bool_call_conditions(b, prov):
+                        if tb is not None and b.dominates(tb, d[0]) and (call[1] or "").endswith("we_have_instructions"):
+                            in_loop = True
+                elif rv["k"] == "bin" and rv["bop"] in ("BitOr",):
+                    t = prov.rvalue(rv)
+                    if any(x[0] == "call" and (x[1] or "").endswith("we_have_instructions") for x in sym.walk(t)):
+                        in_loop = True
+            if init_false and in_loop:
+                ok = True
+        if ok:
+            run.ok(rule, "%s (%s): flag accumulated over all components" % (b.path, role))
+        else:
+            run.fail(rule, "instr-flag:%s" % role, "%s: the %s does not accumulate WE_HAVE_INSTRUCTIONS over all components (false, then set inside the "
+                     "component loop): reader and writer disagree about composites that carry the flag on a component other than the last" % (b.path, role),
+                     "%s:%s" % (b.file, b.line))
+
+
 def check(run, fx, tier, floors=True):
     c15_a(run, fx)
     c15_b(run, fx, floors)
@@ -381,3 +443,5 @@ def check(run, fx, tier, floors=True):
     c15_e(run, fx, floors)
     if floors or fx.body("cff::offset_size") is not None:
         c15_f(run, fx)
+    if floors or fx.adt("tables::glyf::CompositeGlyphs") is not None:
+        c15_g(run, fx)
